@@ -276,7 +276,7 @@ ensures:
         && final(changeset).original_tree_length == old(changeset).original_tree_length
         && final(changeset).original_tree_fork == old(changeset).original_tree_fork && final(changeset).batch_length == old(changeset).batch_length,
     r is Ok ==> final(changeset).nodes@.len() <= 0x20_0010,
-    r is Ok && r->Ok_0 is Some ==> r->Ok_0->Some_0.index < 0x200_0000_0000
+    r is Ok && r->Ok_0 is Some ==> r->Ok_0->Some_0.index < 0x200_0000_0000 && r->Ok_0->Some_0.length <= 0x2000_0000_0000_0000
 first:
     let ghost cs0 = *changeset;
 loop 1:
@@ -308,4 +308,169 @@ pub open spec fn verify_frame(a: &MerkleTreeChangeset, b: &MerkleTreeChangeset) 
     a.roots == b.roots && a.length == b.length && a.byte_length == b.byte_length && a.fork == b.fork && a.upgraded == b.upgraded
         && a.signature == b.signature && a.hash == b.hash && a.ancestors == b.ancestors && a.original_tree_length == b.original_tree_length
         && a.original_tree_fork == b.original_tree_fork && a.batch_length == b.batch_length
+}
+
+/*@ fn src/tree/merkle_tree.rs fn verify_upgrade ; nodecreases
+tags: C04 C09 C03
+result: r
+requires:
+    old(changeset).cs_wf(), old(changeset).nodes@.len() <= 0x20_0010,
+    upgrade.start < 0x100_0000_0000 && upgrade.length < 0x100_0000_0000,
+    nodes_ok(upgrade.nodes@) && nodes_ok(upgrade.additional_nodes@),
+    block_root is Some ==> block_root->Some_0.index < 0x200_0000_0000 && block_root->Some_0.length <= 0x2000_0000_0000_0000
+ensures:
+    // C04 signature gate: an upgrade is accepted only if the supplied signature verifies, under the replica's public key,
+    // over namespace ++ hash(final roots) ++ final length ++ the proof's fork; exactly that hash and signature are recorded
+    r is Ok ==> final(changeset).fork == fork && upgrade.signature@.len() == 64
+        && final(changeset).signature is Some && final(changeset).signature->Some_0.sig_bytes() == upgrade.signature@
+        && final(changeset).hash is Some && final(changeset).hash->Some_0@ == crypto::h_tree(final(changeset).roots@)
+        && crypto::sig_ok(*public_key, crypto::spec_signable(crypto::h_tree(final(changeset).roots@), final(changeset).length, fork), final(changeset).signature->Some_0),
+    // nothing that guards commitability is touched
+    final(changeset).original_tree_length == old(changeset).original_tree_length && final(changeset).original_tree_fork == old(changeset).original_tree_fork
+loop 1:
+    invariant
+        changeset.original_tree_length == old(changeset).original_tree_length, changeset.original_tree_fork == old(changeset).original_tree_fork
+loop 2:
+    invariant
+        changeset.original_tree_length == old(changeset).original_tree_length, changeset.original_tree_fork == old(changeset).original_tree_fork
+loop 3:
+    invariant
+        changeset.original_tree_length == old(changeset).original_tree_length, changeset.original_tree_fork == old(changeset).original_tree_fork
+loop 4:
+    invariant
+        changeset.original_tree_length == old(changeset).original_tree_length, changeset.original_tree_fork == old(changeset).original_tree_fork
+loop 5:
+    invariant
+        changeset.original_tree_length == old(changeset).original_tree_length, changeset.original_tree_fork == old(changeset).original_tree_fork
+unproved-from `while iter.full_root(to)` to `let extra = &upgrade.additional_nodes;`:
+    walking the full roots of the upgrade with the flat-tree iterator: safety of the iterator arithmetic needs the alignment invariant of the mountain range (leaf L of a full tree of 2^k leaves is a multiple of 2^(k+1)); not proved - covered by the native contracts proofs.arbitrary_proofs_refused / proofs.honest_replication
+unproved-from `iter.seek(changeset.roots[changeset.roots.len() - 1].index);` to `changeset.fork = fork;`:
+    appending the additional nodes: same flat-tree alignment argument; not proved - covered by the native contracts
+@*/
+
+/*@ fn src/tree/merkle_tree.rs fn index_from_info
+tags: C09 C03
+result: r
+ensures:
+    r == info.index / 40
+@*/
+
+/*@ fn src/tree/merkle_tree.rs fn node_from_bytes
+tags: C05 C06 C09
+result: r
+requires:
+    data@.len() >= 8
+ensures:
+    // a 40-byte tree record: little-endian u64 size, then the hash
+    r is Ok, r->Ok_0.index == *index, r->Ok_0.hash@ == data@.skip(8), le_bytes(r->Ok_0.length, 8) == data@.subrange(0, 8)
+@*/
+
+impl MerkleTree {
+    /// the stored tree is long enough for 2*length to be computed (the length of a core is below 2^40)
+    pub open spec fn t_wf(&self) -> bool { self.length <= 0xff_ffff_ffff && self.byte_length <= 0xff_ffff_ffff_ffff && self.truncate_to <= 0xff_ffff_ffff && self.roots@.len() <= 64 }
+
+    /*@ fn src/tree/merkle_tree.rs MerkleTree::node
+    tags: C09 C03 C04
+    result: r
+    requires:
+        self.t_wf(), index < 0x400_0000_0000
+    ensures:
+        // an instruction reads exactly the 40-byte record of that node from the tree store
+        r is Ok && r->Ok_0 is Left ==> r->Ok_0->Left_0.store == Store::Tree && r->Ok_0->Left_0.info_type == StoreInfoType::Content
+            && r->Ok_0->Left_0.index == 40 * index && r->Ok_0->Left_0.length == Some(40u64) && r->Ok_0->Left_0.allow_miss == allow_miss,
+        r is Ok && r->Ok_0 is Right && r->Ok_0->Right_0 is Some ==> !r->Ok_0->Right_0->Some_0.blank,
+        r is Ok && r->Ok_0 is Right && r->Ok_0->Right_0 is None ==> allow_miss
+    @*/
+    /*@ fn src/tree/merkle_tree.rs MerkleTree::required_node
+    tags: C09 C03 C04
+    result: r
+    requires:
+        self.t_wf(), index < 0x400_0000_0000
+    ensures:
+        r is Ok && r->Ok_0 is Left ==> r->Ok_0->Left_0.store == Store::Tree && r->Ok_0->Left_0.index == 40 * index && !r->Ok_0->Left_0.allow_miss
+    @*/
+    /*@ fn src/tree/merkle_tree.rs MerkleTree::optional_node
+    tags: C09 C03
+    result: r
+    requires:
+        self.t_wf(), index < 0x400_0000_0000
+    ensures:
+        r is Ok && r->Ok_0 is Left ==> r->Ok_0->Left_0.store == Store::Tree && r->Ok_0->Left_0.index == 40 * index && r->Ok_0->Left_0.allow_miss
+    @*/
+    /*@ fn src/tree/merkle_tree.rs MerkleTree::infos_to_nodes
+    tags: C09 C03
+    result: r
+    requires:
+        infos is Some ==> forall|i: int| 0 <= i < infos->Some_0@.len() ==> ((#[trigger] infos->Some_0@[i]).miss || (infos->Some_0@[i].data is Some && infos->Some_0@[i].data->Some_0@.len() >= 8))
+    ensures:
+        *final(self) == *old(self), r is Ok
+    sub `for info in infos \{` => `for info in it: infos.iter() {`
+    loop 1:
+        invariant
+            *self == *old(self),
+            forall|i: int| 0 <= i < infos@.len() ==> ((#[trigger] infos@[i]).miss || (infos@[i].data is Some && infos@[i].data->Some_0@.len() >= 8))
+    @*/
+    /*@ fn src/tree/merkle_tree.rs MerkleTree::changeset
+    tags: C04 C03 C01
+    result: r
+    ensures:
+        r.length == self.length, r.ancestors == self.length, r.byte_length == self.byte_length, r.batch_length == 0,
+        r.fork == self.fork, nodes_same(r.roots@, self.roots@), r.nodes@.len() == 0, r.hash is None, r.signature is None, !r.upgraded,
+        r.original_tree_length == self.length, r.original_tree_fork == self.fork
+    @*/
+}
+impl MerkleTreeChangeset {
+    /*@ fn src/tree/merkle_tree_changeset.rs MerkleTreeChangeset::new
+    tags: C04 C03 C01
+    result: r
+    ensures:
+        r.length == length, r.ancestors == length, r.byte_length == byte_length, r.batch_length == 0, r.fork == fork,
+        r.roots == roots, r.nodes@.len() == 0, r.hash is None, r.signature is None, !r.upgraded,
+        r.original_tree_length == length, r.original_tree_fork == fork
+    @*/
+}
+
+pub proof fn lemma_roots_sum_same(a: Seq<Node>, b: Seq<Node>)
+    requires nodes_same(a, b)
+    ensures roots_sum(a) == roots_sum(b)
+    decreases a.len()
+{
+    if a.len() > 0 {
+        assert(nodes_same(a.drop_last(), b.drop_last())) by {
+            assert forall|i: int| 0 <= i < a.drop_last().len() implies Node::eqv(#[trigger] a.drop_last()[i], b.drop_last()[i]) by { assert(Node::eqv(a[i], b[i])); }
+        }
+        lemma_roots_sum_same(a.drop_last(), b.drop_last());
+        assert(Node::eqv(a[a.len() - 1], b[a.len() - 1]));
+    }
+}
+pub open spec fn infos_readable(infos: Option<&[StoreInfo]>) -> bool {
+    infos is Some ==> forall|i: int| 0 <= i < infos->Some_0@.len() ==> ((#[trigger] infos->Some_0@[i]).miss || (infos->Some_0@[i].data is Some && infos->Some_0@[i].data->Some_0@.len() >= 8))
+}
+impl MerkleTree {
+    /*@ fn src/tree/merkle_tree.rs MerkleTree::verify_proof
+    tags: C04 C09 C03
+    result: r
+    requires:
+        old(self).t_wf(), proof_ok(proof), infos_readable(infos),
+        old(self).roots@.len() <= 64, forall|i: int| 0 <= i < old(self).roots@.len() ==> (#[trigger] old(self).roots@[i]).index < 0x200_0000_0000,
+        roots_sum(old(self).roots@) == old(self).byte_length
+    ensures:
+        // verification never changes the tree
+        *final(self) == *old(self),
+        r is Ok && r->Ok_0 is Left ==> r->Ok_0->Left_0@.len() == 1 && r->Ok_0->Left_0@[0].store == Store::Tree,
+        // the changeset handed to the core is made from the current tree (so commitability is decided against it) ...
+        r is Ok && r->Ok_0 is Right ==> r->Ok_0->Right_0.original_tree_length == old(self).length && r->Ok_0->Right_0.original_tree_fork == old(self).fork,
+        // ... C04: without an upgrade section nothing a commit installs differs from the tree,
+        r is Ok && r->Ok_0 is Right && proof.upgrade is None ==> !r->Ok_0->Right_0.upgraded && r->Ok_0->Right_0.length == old(self).length
+            && r->Ok_0->Right_0.byte_length == old(self).byte_length && r->Ok_0->Right_0.fork == old(self).fork,
+        // ... and with one the signature gate has been passed for exactly the roots / length / fork it carries
+        r is Ok && r->Ok_0 is Right && proof.upgrade is Some ==> r->Ok_0->Right_0.fork == proof.fork
+            && r->Ok_0->Right_0.signature is Some && r->Ok_0->Right_0.hash is Some && r->Ok_0->Right_0.hash->Some_0@.len() == 32
+            && crypto::sig_ok(*public_key, crypto::spec_signable(crypto::h_tree(r->Ok_0->Right_0.roots@), r->Ok_0->Right_0.length, proof.fork), r->Ok_0->Right_0.signature->Some_0)
+    after `let mut changeset = self.changeset();`:
+        proof {
+            lemma_roots_sum_same(changeset.roots@, self.roots@);
+            assert forall|i: int| 0 <= i < changeset.roots@.len() implies (#[trigger] changeset.roots@[i]).index < 0x200_0000_0000 by { assert(Node::eqv(changeset.roots@[i], self.roots@[i])); }
+        }
+    @*/
 }
